@@ -52,7 +52,7 @@ def node_link_data(G, attrs=_attrs):
     data = {'directed': G.is_directed(), 'graph': G.graph,
             'nodes': [dict(chain(G._node[n].items(), [(id_, n)])) for n in G], 'links': []}
 
-    for u, v, timeline in G.interactions_iter():
+    for u, v, timeline in (G.out_interactions_iter() if G.is_directed() else G.interactions_iter()):
         for t in timeline['t']:
             for tid in range(t[0], t[-1]+1):
                 data['links'].append({"source": u, "target": v, "time": tid})
